@@ -281,7 +281,10 @@ func (mq *memtableQueue) add(vector []float32, text string, metadata map[string]
 	}
 
 	mutable := mq.mutable
-	mq.mu.Unlock()
+	// Keep the queue lock until the document is in the memtable: otherwise a
+	// concurrent add can rotate (freeze) this memtable between the choice
+	// above and the write, and this add fails with "memtable is frozen".
+	defer mq.mu.Unlock()
 
 	return mutable.add(vector, text, metadata)
 }
@@ -296,7 +299,10 @@ func (mq *memtableQueue) addWithID(id uint32, vector []float32, text string, met
 	}
 
 	mutable := mq.mutable
-	mq.mu.Unlock()
+	// Keep the queue lock until the document is in the memtable: otherwise a
+	// concurrent add can rotate (freeze) this memtable between the choice
+	// above and the write, and this add fails with "memtable is frozen".
+	defer mq.mu.Unlock()
 
 	return mutable.addWithID(id, vector, text, metadata)
 }
